@@ -38,6 +38,9 @@ LEVEL_TEXT = (
     "agreement lemmas for mkd/rmd/dele/rnto/stor/appe/retr/list/cwd under exactly the handler's PathConditions (RNTO and "
     "STOR/APPE without further conditions since MemoryPathIO's r+b open and rename were repaired: F06, F07a, F07b, F17 "
     "are `fixed`; their four witnesses are kept as computed cases C18_former_*_agrees and as corpus sessions); "
+    "C18_rename_inside_is_componentwise / C18_rename_sibling_extension_not_inside / C18_rename_sibling_extension_agree - "
+    "rename's 'destination inside source' test is on path components: a sibling whose name extends the source's (d -> d2, "
+    "report -> report.bak), at every depth, is outside, and the in-memory rename to it succeeds and moves the entry as on disk; "
     "C18_fs_backends_equal from the closed obligation same_calls Gen.PathIOTable.table = true; "
     "C18_api_mem_posix_agree_partial / C18_open_matrix_agree - on the decidable domain api_ok (every query, mkdir with "
     "every flag, rmdir/unlink, rename onto a missing destination, open in every mode with every seek/read/write script "
@@ -274,8 +277,60 @@ def mutators():
     return ops
 
 
+# ---- names that are string prefixes / extensions of one another -------------------------------------------------
+# "destination lies inside source" (rename), "is below the base path", "is an ancestor" are relations on path
+# COMPONENTS; on the path STRINGS `d2`, `d.bak`, `dd` start with `d` without lying below it.  Every source gets
+# destinations whose last name extends / truncates / doubles its own name (siblings), paths below such a sibling
+# (missing and existing), and true descendants -- for files and directories, at depths 1-4.
+EXT_SUFFIXES = ["2", ".bak", "_"]
+
+
+def ext_dests(ps):
+    """destinations related to the source path `ps` ('d/e') by the characters of its last name"""
+    parts = P(ps)
+    parent, n = parts[:-1], parts[-1]
+    sib = [n + x for x in EXT_SUFFIXES] + [n + n]
+    out = [parent + [x] for x in sib]                                   # siblings whose name extends the source's
+    if len(n) > 1 and n[:-1] not in (".", ".."):
+        out.append(parent + [n[:-1]])                                   # ... and one that truncates it
+    out += [parent + [x, "x"] for x in sib[:2]]                         # below such a sibling (missing: ENOENT everywhere)
+    out += [parts + ["x"], parts + [n], parts + [n + "2"], parts + ["e", "x"]]   # true descendants (refused everywhere)
+    return out
+
+
+def ext_rename_sequences(tree_index, sources):
+    """API level: [(tree index, ops)] -- rename to every related destination; there and back; into an EXISTING sibling
+    directory whose name extends the source's; the same one level deeper (entry created first)"""
+    seqs = []
+    for ps in sources:
+        a = P(ps)
+        parent, n = a[:-1], a[-1]
+        for b in ext_dests(ps):
+            seqs.append((tree_index, [("rename", a, b)]))
+        for x in EXT_SUFFIXES[:2]:
+            sib = parent + [n + x]
+            seqs.append((tree_index, [("rename", a, sib), ("rename", sib, a)]))
+            seqs.append((tree_index, [("rename", a, sib), ("rename", sib, sib + ["sub"])]))
+            seqs.append((tree_index, [("mkdir", sib, False, False), ("rename", a, sib + [n])]))
+            seqs.append((tree_index, [("mkdir", sib, False, False), ("rename", a, sib + ["x"]), ("list", sib)]))
+    return seqs
+
+
+def api_ext_sequences():
+    seqs = ext_rename_sequences(0, ["d", "d/f", "d/e", "g", "k"]) + ext_rename_sequences(1, ["d", "g", ".h"])
+    deep = [
+        ([("mkdir", P("d/e/h"), False, False)], "d/e/h"),
+        ([("open", P("d/e/h"), "wb", [("write", b"deep")])], "d/e/h"),
+        ([("mkdir", P("d/e/h"), False, False), ("open", P("d/e/h/i"), "wb", [("write", b"i")])], "d/e/h/i"),
+    ]
+    for setup, ps in deep:
+        for ti, ops in ext_rename_sequences(0, [ps]):
+            seqs.append((ti, setup + ops))
+    return seqs
+
+
 def random_op(rng):
-    names = ["d", "e", "f", "g", "k", "m", "x", ".h"]
+    names = ["d", "e", "f", "g", "k", "m", "x", ".h", "d2", "dd", "g.bak", "f2"]
 
     def rp():
         if rng.random() < 0.7:
@@ -340,6 +395,9 @@ def api_sequences(ctx, thorough):
         for o in full:
             seqs.append((ti, [o]))
     ctx.count("api_len1_exhaustive", len(seqs))
+    ext = api_ext_sequences()
+    seqs += ext
+    ctx.count("api_rename_names_extending_one_another(siblings/descendants, files/dirs, depth 1-4)", len(ext))
     n2 = 0
     if thorough:
         for o1 in mut:
@@ -652,6 +710,49 @@ def ftp_mutators():
     return out
 
 
+def ftp_ext_sessions(rng, thorough):
+    """sessions over names that are string prefixes / extensions of one another (see ext_dests): RNFR x RNTO for files and
+    directories at depths 1-4, siblings and true descendants, there and back, into an existing sibling directory; and the
+    other verbs on a tree that holds both a name and its extensions"""
+    fp = lambda parts: "/" + "/".join(parts)
+    sources = [
+        ([], "d"), ([], "d/f"), ([], "d/e"), ([], "g"), ([], "k"), ([], ".h"),
+        ([("MKD", "/d/e/h")], "d/e/h"),
+        ([("STOR", "/d/e/h", b"deep", None)], "d/e/h"),
+        ([("MKD", "/d/e/h"), ("STOR", "/d/e/h/report", b"12345", None)], "d/e/h/report"),
+    ]
+    seqs = []
+    for setup, ps in sources:
+        a = P(ps)
+        parent, n = a[:-1], a[-1]
+        for b in ext_dests(ps):
+            seqs.append(setup + [("RNFR", fp(a)), ("RNTO", fp(b))])
+        for x in EXT_SUFFIXES[:2]:
+            sib = parent + [n + x]
+            seqs.append(setup + [("RNFR", fp(a)), ("RNTO", fp(sib)), ("RNFR", fp(sib)), ("RNTO", fp(a))])
+            seqs.append(setup + [("RNFR", fp(a)), ("RNTO", fp(sib)), ("RNFR", fp(sib)), ("RNTO", fp(sib + ["sub"]))])
+            seqs.append(setup + [("MKD", fp(sib)), ("RNFR", fp(a)), ("RNTO", fp(sib + [n]))])
+            seqs.append(setup + [("MKD", fp(sib)), ("RNFR", fp(a)), ("RNTO", fp(sib + ["x"])), ("LIST", fp(sib), None)])
+    n_ren = len(seqs)
+    # the other verbs where a name and its extensions live side by side
+    both = [("MKD", "/d2"), ("STOR", "/g.bak", b"B", None), ("STOR", "/d/f2", b"F2", None)]
+    for ps in ("d2", "g.bak", "d", "g", "d/f2", "d/f", "d2/f", "dd", "g.ba"):
+        for c in (("MKD", "/" + ps), ("RMD", "/" + ps), ("DELE", "/" + ps), ("CWD", "/" + ps), ("MLST", "/" + ps),
+                  ("LIST", "/" + ps, None), ("RETR", "/" + ps, None), ("STOR", "/" + ps, b"PQ", None),
+                  ("APPE", "/" + ps, b"PQ", 1), ("STOR", "/" + ps, b"PQ", 1)):
+            seqs.append(both + [c, ("LIST", "/", None)])
+    n_verbs = len(seqs) - n_ren
+    pool = ["d", "d2", "d.bak", "dd", "d/f", "d/f2", "d/ff", "d/e", "d/e2", "d/e/e", "d2/d", "g", "g2", "g.bak", "k", "kk", "k/k"]
+    cmds = []
+    for ps in pool:
+        cmds += [("RNFR", "/" + ps), ("RNFR", "/" + ps), ("RNTO", "/" + ps), ("RNTO", "/" + ps), ("MKD", "/" + ps),
+                 ("RMD", "/" + ps), ("DELE", "/" + ps), ("STOR", "/" + ps, b"PQR", None), ("APPE", "/" + ps, b"S", 1)]
+    nr = 1500 if thorough else 60
+    for _ in range(nr):
+        seqs.append([rng.choice(cmds) for _ in range(rng.randint(3, 8))])
+    return seqs, n_ren, n_verbs, nr
+
+
 def enc_cmd(c):
     v = c[0]
     if v in ("STOR", "APPE"):
@@ -730,6 +831,10 @@ def classify(cmds, i, pre_tree, rename_from, obs3, trees3):
         if a and b and isinstance(src, list) and isinstance(dparent, list) and b[: len(a)] == a and len(b) > len(a) \
                 and disk_inert and mem[0].startswith("2"):
             return "ftp:rnto:into-own-subtree-memory-loses-subtree"
+        if a and b and src is not None and b[: len(a)] != a and "/".join(b).startswith("/".join(a)) \
+                and mem[0].startswith("4") and pa[0].startswith("2"):
+            # shape: the destination is outside the source by components, its path string starts with the source's
+            return "ftp:rnto:destination-string-extends-source-refused-by-memory"
         if a and a == b and src is None and disk_inert and mem[0].startswith("2") and trees3[0] == pre_tree:
             return "ftp:rnto:same-path-source-gone-memory-says-ok"
     return f"ftp:three-way:{v.lower()}"
@@ -762,6 +867,11 @@ def ftp_sequences(ctx, thorough):
         # the same-path shape needs the middle command to remove exactly the source
         seqs += [[("RNFR", "/d/f"), ("DELE", "/d/f"), ("RNTO", "/d/f")], [("RNFR", "/k"), ("RMD", "/k"), ("RNTO", "/k")]]
     ctx.count("ftp_len2_len3_structured", len(seqs) - n)
+    ext, n_ren, n_verbs, n_rand = ftp_ext_sessions(rng, thorough)
+    seqs += ext
+    ctx.count("ftp_rename_names_extending_one_another(siblings/descendants, files/dirs, depth 1-4)", n_ren)
+    ctx.count("ftp_verbs_on_names_extending_one_another", n_verbs)
+    ctx.count("ftp_random_names_extending_one_another", n_rand)
     nr = 6000 if thorough else 250
     allc = c1 + mut + [("RNTO", "/" + p) for p in FTP_PATHS]
     for _ in range(nr):
@@ -796,6 +906,20 @@ def run_ftp_level(ctx, tmp, thorough, seqs=None):
             for k, s in enumerate(seqs):
                 rs = await asyncio.gather(*[b.run(FTP_INIT, s) for b in bs])
                 ctx.traces_impl += 3
+                if real_time_outcome(rs, len(s)) and retries["left"] > 0:
+                    # loopback sockets on the REAL clock: a step that ran out of wall time, lost its connection or ended a
+                    # session early may be the machine's load, not the backend.  Repeat the session once, one backend at
+                    # a time, with generous limits, and judge that run (at most a few times per check: a mutant that
+                    # really hangs is still reported, inside the budget).
+                    retries["left"] -= 1
+                    retries["used"] += 1
+                    old = D.STEP_TIMEOUT
+                    D.STEP_TIMEOUT = 30.0
+                    try:
+                        rs = [await b.run(FTP_INIT, s) for b in bs]
+                    finally:
+                        D.STEP_TIMEOUT = old
+                    ctx.traces_impl += 3
                 ctx.case(("ftp", repr(s)))
                 pre = D.canon(FTP_INIT)
                 rename_from = None
@@ -845,6 +969,17 @@ def run_ftp_level(ctx, tmp, thorough, seqs=None):
             for b in bs:
                 await b.close()
 
+    retries = {"left": 3, "used": 0}
+
+    def real_time_outcome(rs, n):
+        for r in rs:
+            if len(r) < n:
+                return True
+            for obs, _ in r:
+                if any(isinstance(x, str) and (x in ("TIMEOUT", "EOF") or x.startswith(("CONN", "pasv:"))) for x in obs):
+                    return True
+        return False
+
     def pre_b(rs, bs, b, i):
         bi = bs.index(b)
         return rs[bi][i - 1][1] if i > 0 else D.canon(FTP_INIT)
@@ -857,6 +992,8 @@ def run_ftp_level(ctx, tmp, thorough, seqs=None):
         loop.close()
     for v, n in sorted(verbs.items()):
         ctx.count("ftp_verb_" + v, n)
+    if retries["used"]:
+        ctx.count("ftp_sessions_repeated_with_generous_limits(real-time outcome)", retries["used"])
     ctx.sample({"stream": "ftp", "tree": D.tree_json(FTP_INIT), "cmds": op_json(seqs[-1])})
     return xcheck
 
@@ -884,7 +1021,12 @@ def correspondence(ctx):
         "operations (h_open/h_seek/h_read/h_write/h_close on two handle slots + every path operation in between: stat/exists/"
         "list/second rb, r+b, ab, wb handle/unlink/rename/mkdir while the first handle is still open; writes below, at and above "
         "the 8 KiB buffer), structured (mode x write script x observer-before-close) + random, REAL PathIO vs REAL AsyncPathIO, "
-        "observation and on-disk tree after every step. Non-trivial = distinct (tree, sequence)."
+        "observation and on-disk tree after every step. Names that are string prefixes / extensions of one another (d, d2, d.bak, "
+        "d_, dd; report, report.bak, repor): every existing file and directory at depths 1-4 renamed to the siblings whose name "
+        "extends / truncates / doubles its own, below such a sibling (missing and existing) and to its true descendants, there "
+        "and back, at API and FTP level; the other verbs on a tree that holds a name next to its extensions; random sessions "
+        "over a pool of mutually extending names. A loopback session with a real-time outcome (timeout, lost connection, early "
+        "end) is repeated once with generous limits before it is judged. Non-trivial = distinct (tree, sequence)."
     )
     tmp = make_tmp()
     try:
